@@ -34,6 +34,7 @@ class Ctx:
         self.assumptions = []
         self.extract_s = 0.0
         self.tree_hash = None
+        self.selftest = None
 
     def facts(self, cfg=None):
         cfg = cfg or self.cfg
@@ -91,6 +92,64 @@ def load_known():
         return json.load(fh)
 
 
+def selftest_on_scratch(prop, mod):
+    """Thorough tier only: run this property's rules on seeded variants of the CURRENT /repo tree (one textual
+    edit each, fixtures/variants.py) applied to a scratch copy outside /repo and /verif, which is removed afterwards.
+    Checks the checker: every non-benign variant must make its expected rule fire, every benign refactor must stay
+    silent.  Static analysis of variants; nothing is executed.  A miss is reported in the evidence and on stderr, it is
+    not a violation of the property on the unchanged tree."""
+    import shutil, subprocess, tempfile
+    try:
+        from fixtures import variants
+    except Exception as e:           # fixtures are optional
+        return {"error": str(e)}
+    mine = [v for v in variants.VARIANTS if v["prop"] == prop]
+    if not mine:
+        return {"variants": 0}
+    scratch = tempfile.mkdtemp(prefix="ipa-verif-scratch-")
+    rows = []
+    try:
+        subprocess.check_call(["rsync", "-a", "--exclude", "target", "--exclude", ".git", extract.REPO + "/", scratch + "/"])
+        known = {k["key"] for k in load_known().get("findings", []) if k.get("status") == "open"}
+        for v in mine:
+            touched = {}
+            status = "ran"
+            fired = []
+            try:
+                for e in v["edits"]:
+                    path = os.path.join(scratch, e["file"])
+                    src = open(path).read()
+                    touched.setdefault(path, src)
+                    if src.count(e["find"]) != e.get("count", 1):
+                        status = "stale-fixture"
+                        break
+                    open(path, "w").write(src.replace(e["find"], e["replace"]))
+                if status == "ran":
+                    c2 = Ctx(prop, "quick", repo=scratch)
+                    c2.cfg = v.get("cfg", "Q")
+                    try:
+                        mod.run(c2)
+                        fired = sorted({f"{o.rule}|{o.instance}" for o in c2.obs if not o.ok and o.key(prop) not in known})
+                    except extract.ExtractError:
+                        status = "does-not-compile"
+            finally:
+                for path, src in touched.items():
+                    open(path, "w").write(src)
+            if v.get("benign"):
+                ok = status == "ran" and not fired
+            else:
+                exp = v["expect"]
+                exp = [exp] if isinstance(exp, str) else exp
+                ok = status == "ran" and any(all(x in f for x in exp) for f in fired)
+            rows.append({"variant": v["name"], "benign": bool(v.get("benign")), "status": status, "ok": ok, "fired": fired[:4]})
+            if not ok:
+                print(f"[selftest] {prop} variant {v['name']}: {'NOT DETECTED' if not v.get('benign') else 'FALSE ALARM'} ({status}) fired={fired[:3]}", file=sys.stderr)
+    finally:
+        shutil.rmtree(scratch, ignore_errors=True)
+    return {"variants": len(rows), "detected": sum(1 for r in rows if r["ok"] and not r["benign"]), "benign_silent": sum(1 for r in rows if r["ok"] and r["benign"]),
+            "problems": [r for r in rows if not r["ok"]], "rows": rows}
+
+
 def run_property(prop, tier, seed=0):
     t0 = time.time()
     mod = importlib.import_module(f"rules.{prop}")
@@ -106,6 +165,8 @@ def run_property(prop, tier, seed=0):
         ctx.cfg = None
         if tier == "thorough" and hasattr(mod, "run_thorough"):
             mod.run_thorough(ctx)
+        if tier == "thorough" and os.environ.get("VERIF_SELFTEST", "1") != "0":
+            ctx.selftest = selftest_on_scratch(prop, mod)
     except extract.ExtractError as e:
         fatal = f"fact extraction failed: {e}"
     except Exception:
@@ -176,6 +237,7 @@ def run_property(prop, tier, seed=0):
             "exhaustive": False,
             "tree_hash": ctx.tree_hash,
             "known_findings_reported": sorted(knownhit),
+            "checker_selftest": ctx.selftest,
             **ctx.stats,
         },
         "assumptions": ctx.assumptions,
